@@ -345,7 +345,7 @@ def run_k2(ctx, progs, crate="k2sync"):
     n_bad = k2.report(ctx, res)
     for (p, problems, rl, sl) in res[:2]:
         if p is not None:
-            ctx.out.coverage["samples"].append({"program": "%s! { %s }" % (p.name, p.macro_input()), "observed": rl[:300]})
+            ctx.out.coverage["samples"].append({"program": p.invocation(), "observed": rl[:300]})
     for (p, problems, rl, sl) in res:
         if p is not None:
             ctx.shapes.add(p.kind + struct_shape(re.sub(r"\d+", "0", p.macro_input())))
@@ -826,11 +826,11 @@ def run_chains(ctx, n, wrappers, tag):
         ctx.dist["k2chains:" + p.name] += 1
         ctx.shapes.add(p.name + struct_shape(re.sub(r"\d+", "0", p.macro_input())))
         if not verdict.startswith("same"):
-            ctx.out.violation({"macro": p.name, "source": p.macro_input(), "program": "%s! { %s }" % (p.name, p.macro_input()),
+            ctx.out.violation({"macro": p.name, "source": p.macro_input(), "program": p.invocation(),
                                "observed": verdict[:1500],
                                "what": "the macro chain and the documented plain method chain differ (value or callback trace)"},
                               found_input=True, signature=None)
-    ctx.out.coverage["samples"] += [{"program": "%s! { %s }" % (p.name, p.macro_input()), "verdict": v[:120]} for p, v in res[-3:]]
+    ctx.out.coverage["samples"] += [{"program": p.invocation(), "verdict": v[:120]} for p, v in res[-3:]]
     ctx.out.coverage["traces_validated_against_impl"] = ctx.out.coverage.get("traces_validated_against_impl", 0) + len(res)
 
 
